@@ -21,6 +21,7 @@ package main
 import (
 	"fmt"
 	"strings"
+	"time"
 
 	"github.com/hashicorp/consul/agent/consul"
 	"github.com/hashicorp/consul/internal/verifharness/hx"
@@ -297,12 +298,20 @@ func main() {
 	}
 	qs := modelledQueries(u)
 	run.Extra["modelled_queries"] = len(qs)
-	modelHistories(run, qs, []*storex.Profile{kvHeavy, catalogHeavy, sessionHeavy, txnHeavy}, run.Scale(160, 1400), 25, run.Scale(12, 6))
+	t0 := time.Now()
+	lap := func(name string) {
+		run.Extra["seconds_"+name] = int(time.Since(t0).Seconds())
+		t0 = time.Now()
+	}
+	modelHistories(run, qs, []*storex.Profile{kvHeavy, catalogHeavy, sessionHeavy, txnHeavy}, run.Scale(160, 900), 25, run.Scale(12, 6))
+	lap("model_histories")
 	wideWitnesses(run)
-	wideHistories(run, run.Scale(120, 1000), 30)
+	wideHistories(run, run.Scale(120, 500), 30)
+	lap("wide_histories")
 	pre, ls := catalogAlphabet()
 	exhaustive(run, "catalog", qs, pre, ls, run.Scale(2, 3))
 	pre, ls = kvAlphabet()
 	exhaustive(run, "kv", qs, pre, ls, run.Scale(2, 3))
+	lap("exhaustive")
 	run.Finish()
 }
